@@ -193,6 +193,7 @@ def families_for(schema_id: str) -> list[str]:
         "struct": ["struct"],
         "iso": ["iso", "iso_list"],
         "table": ["table"],
+        "grid": ["table"],
         "topmarks": ["topmarks"],
         "attrs": ["attrs"],
     }[schema_id]
